@@ -1627,3 +1627,23 @@ def _char_encode_utf8(ctx, args, ck):
 def _char_to_string(ctx, args, ck):
     c = ctx.m.peel(args[0])
     return new_string_from([c], [ctx.char_width(c)])
+
+
+# ---------------------------------------------------------------- ndarray: (shape, flat row-major data)
+@model('ArrayBase::from_shape_vec')
+def _nd_from_shape_vec(ctx, args, ck):
+    shape = args[0]
+    dims = shape.fields if isinstance(shape, Tup) else [shape]
+    v = args[1]
+    total = Int(1, 'usize')
+    for d in dims:
+        total = checked_arith(ctx, 'Mul', total, d)
+    if not ctx.branch(ctx.m.int_binop('Eq', total, Int(len(v.items), 'usize'))):
+        return Err(Opaque('ShapeError'))
+    return Ok(Struct('NdArray', [Tup(list(dims)), v], ['shape', 'data']))
+
+
+@model('ArrayBase::from_vec')
+def _nd_from_vec(ctx, args, ck):
+    v = args[0]
+    return Struct('NdArray', [Tup([Int(len(v.items), 'usize')]), v], ['shape', 'data'])
